@@ -7,6 +7,7 @@ package vrt
 import (
 	"fmt"
 	"os"
+	"sync"
 	"sync/atomic"
 	"syscall"
 	"time"
@@ -41,9 +42,66 @@ func Getpagesize() int {
 // FlockCalls counts calls that reached the flock seam (evidence that the rule matched at run time).
 var FlockCalls atomic.Int64
 
+// lock log: which descriptors took a lock while logging was on (used to find handles a command left locked)
+type lockEnt struct {
+	fd       int
+	dev, ino uint64
+	path     string
+}
+
+var lockLog struct {
+	mu   sync.Mutex
+	on   bool
+	ents []lockEnt
+}
+
+// BeginLockLog starts recording the descriptors on which a lock is taken.
+func BeginLockLog() {
+	lockLog.mu.Lock()
+	lockLog.on, lockLog.ents = true, nil
+	lockLog.mu.Unlock()
+}
+
+// EndLockLog stops recording and returns the paths of files that are STILL locked through a descriptor recorded
+// since BeginLockLog (same descriptor number, still the same file, and an exclusive probe on a fresh description
+// fails).  Such a lock is released (the descriptor is left alone) so that the caller can go on.
+func EndLockLog() (leaked []string) {
+	lockLog.mu.Lock()
+	ents := lockLog.ents
+	lockLog.on, lockLog.ents = false, nil
+	lockLog.mu.Unlock()
+	done := map[int]bool{}
+	for _, e := range ents {
+		if done[e.fd] {
+			continue
+		}
+		done[e.fd] = true
+		var st syscall.Stat_t
+		if syscall.Fstat(e.fd, &st) != nil || st.Dev != e.dev || st.Ino != e.ino {
+			continue // closed (or the number was reused for another file)
+		}
+		if !flockProbe(fmt.Sprintf("/proc/self/fd/%d", e.fd), syscall.LOCK_EX) {
+			syscall.Flock(e.fd, syscall.LOCK_UN)
+			leaked = append(leaked, e.path)
+		}
+	}
+	return leaked
+}
+
 // Flock replaces syscall.Flock in package whispertool.
 func Flock(fd int, how int) error {
 	FlockCalls.Add(1)
+	if how&(syscall.LOCK_EX|syscall.LOCK_SH) != 0 {
+		lockLog.mu.Lock()
+		if lockLog.on {
+			var st syscall.Stat_t
+			if syscall.Fstat(fd, &st) == nil {
+				p, _ := os.Readlink(fmt.Sprintf("/proc/self/fd/%d", fd))
+				lockLog.ents = append(lockLog.ents, lockEnt{fd, st.Dev, st.Ino, p})
+			}
+		}
+		lockLog.mu.Unlock()
+	}
 	if s := active.Load(); s != nil && s.managed() {
 		if how&syscall.LOCK_NB == 0 && how&(syscall.LOCK_EX|syscall.LOCK_SH) != 0 {
 			path := fmt.Sprintf("/proc/self/fd/%d", fd)
